@@ -20,6 +20,8 @@ func main() {
 	logsmt := flag.String("logsmt", "", "")
 	maxPaths := flag.Int("maxpaths", 100000, "")
 	params := flag.String("params", "", "k=v,k=v")
+	intMode := flag.Bool("int", false, "Int back end")
+	solver := flag.String("solver", "z3", "")
 	flag.Parse()
 	ov, err := symex.ReadOverlayDir(*hdir, *repo)
 	if err != nil {
@@ -46,7 +48,7 @@ func main() {
 			pm[kv[:i]] = v
 		}
 	}
-	res := in.Explore(symex.ExploreConfig{Params: pm, Entry: fn, Workers: *workers, LogSMT: *logsmt, MaxPaths: *maxPaths, KeepFuncs: true})
+	res := in.Explore(symex.ExploreConfig{IntMode: *intMode, Solver: *solver, TimeoutMs: 30000, Params: pm, Entry: fn, Workers: *workers, LogSMT: *logsmt, MaxPaths: *maxPaths, KeepFuncs: true})
 	for _, p := range res.Paths {
 		b, _ := json.Marshal(struct {
 			D []int64
